@@ -206,17 +206,17 @@ func genScript(r *hx.Rng, idx int) script {
 }
 
 // exhaustiveSmall: every arrival order of {honest 0, honest 1, honest 2, one
-// Byzantine message} for n=3 (k=2), for a few Byzantine kinds: 24 orders each.
+// Byzantine message} for n=4 (k=3: the party lives until the third honest share), for a few Byzantine kinds: 24 orders each.
 func exhaustiveSmall() []script {
 	var out []script
-	byzKinds := []string{declaredOther(0, "X1"), declaredOther(2, "X1") + " rand=junk", "signer=3", "signer=1 sig=s.0.H", "signer=1 idenc=over"}
+	byzKinds := []string{declaredOther(0, "X1"), declaredOther(2, "X1") + " rand=junk", "signer=4", "signer=1 sig=s.0.H", "signer=1 idenc=over"}
 	base := []string{honest(0), honest(1), honest(2)}
 	for bi, bz := range byzKinds {
 		items := append(append([]string{}, base...), bz)
 		var rec func(cur []string, rest []string)
 		rec = func(cur []string, rest []string) {
 			if len(rest) == 0 {
-				lines := []string{header(3, allMembers(3), "64", false), "enter"}
+				lines := []string{header(4, allMembers(4), "64", false), "enter"}
 				for _, m := range cur {
 					lines = append(lines, "m "+m)
 				}
